@@ -31,7 +31,7 @@ pub fn plan(p: &EpParams) -> Plan {
     Plan {
         episodes: n,
         exhaustive: false,
-        rule: "stepwise episodes of 15-40 seeded steps on one subscription: start a blocked Pull (max 1-3) or an open StreamingPull (max_outstanding 0-3), cancel a waiter (parked, or in the same instant as a publish), publish 1 or 2-5 messages, nack leases from another client, advance past the ack deadline; a non-destructive quiescence check (hook stats) after every step, reported only if it persists over two barriers. Non-trivial: >=1 quiescent observation with a waiting consumer and >=1 wake-up in the episode. Distinct: (waiter kinds and limits, availability causes, cancellation points) sequence.".into(),
+        rule: "stepwise episodes of 15-40 seeded steps on one subscription: start a blocked Pull (max 1-3) or an open StreamingPull (max_outstanding 0-3), cancel a waiter (parked, or in the same instant as a publish), stall a StreamingPull client (it stops reading responses), publish 1 or 2-5 messages, nack leases from another client, advance past the ack deadline; a non-destructive quiescence check (hook stats) after every step, reported only if it persists over two barriers. Non-trivial: >=1 quiescent observation with a waiting consumer and >=1 wake-up in the episode. Distinct: (waiter kinds and limits, availability causes, cancellation points) sequence.".into(),
     }
 }
 
@@ -65,7 +65,20 @@ async fn episode(p: &EpParams) -> EpReport {
     let mut last_cause = "none";
     for _ in 0..steps {
         let mut cause = "none";
-        match rng.below(12) {
+        match rng.below(13) {
+            12 => {
+                // a StreamingPull client stops reading its responses: its handler stalls at the next
+                // response it wants to send, subscribed to the availability signal but not waiting on
+                // it - availability events that follow belong to the consumers that really wait
+                let idx: Vec<usize> = waiters.iter().enumerate().filter(|(_, wt)| matches!(wt, Waiter::Stream { h, .. } if !h.is_paused())).map(|(i, _)| i).collect();
+                if !idx.is_empty() {
+                    if let Waiter::Stream { h, .. } = &waiters[*rng.pick(&idx)] {
+                        h.pause_reading();
+                        shape.push("stall-stream".into());
+                        rep.inc("streams_stalled");
+                    }
+                }
+            }
             0 | 1 => {
                 let max = rng.range(1, 3) as i32;
                 next_client += 1;
@@ -286,7 +299,7 @@ async fn episode(p: &EpParams) -> EpReport {
                         served_now += 1;
                         known_leases.extend(all[seen..].iter().map(|d| d.ack_id.clone()));
                     }
-                    if h.is_reading() {
+                    if h.is_reading() || (h.is_paused() && h.ended().is_none()) {
                         let n = all.len();
                         still.push(Waiter::Stream { h, seen: n });
                     }
@@ -325,6 +338,15 @@ async fn episode(p: &EpParams) -> EpReport {
                         Waiter::Stream { .. } => "stream",
                     }).collect();
                     let kind = if kinds.iter().all(|k| *k == "pull") { "pull" } else if kinds.iter().all(|k| *k == "stream") { "stream" } else { "mixed" };
+                    if std::env::var("DV_DEBUG").is_ok() {
+                        for wt in waiters.iter() {
+                            match wt {
+                                Waiter::Pull { task, max, .. } => eprintln!("DEBUG waiter pull max={} finished={}", max, task.is_finished()),
+                                Waiter::Stream { h, seen } => eprintln!("DEBUG waiter stream op={} paused={} reading={} deliveries={} seen={} ended={:?}", h.op_id, h.is_paused(), h.is_reading(), h.deliveries().len(), seen, h.ended()),
+                            }
+                        }
+                        eprintln!("DEBUG hooks {:?}", deltio::verif::snapshot());
+                    }
                     let mut waiting: BTreeMap<String, Vec<u64>> = BTreeMap::new();
                     waiting.insert(s.clone(), vec![still_waiting as u64]);
                     w.quiesce(&[s.clone()], waiting).await;
@@ -358,6 +380,7 @@ async fn episode(p: &EpParams) -> EpReport {
     rep.nontrivial = q_points_with_waiter > 0 && wakeups > 0;
     rep.key = shape.join(",");
     rep.history = w.history().abstract_lines(if rep.violations.is_empty() { 60 } else { 500 });
+    rep.history.insert(0, format!("steps: {}", shape.join(",")));
     w.shutdown();
     rep
 }
